@@ -94,6 +94,9 @@
 (*                       while waiting": a call whose context is done before  *)
 (*                       the limiter lets it through returns an error and     *)
 (*                       transmits nothing                                    *)
+(* (ServerOrder, gated)  the same per call while several calls are in flight:  *)
+(*                       the attempt after a failed one goes to the server    *)
+(*                       configured after the one that just failed THIS call  *)
 (* IdUnique              requests in flight to one server at the same time    *)
 (*                       differ in (source address, Identifier); each call    *)
 (*                       gets the verdict of the reply to ITS request         *)
@@ -135,6 +138,13 @@
 (*           t's MAC in the documented format, 0 = absent, -1 = other         *)
 (*           replies <<[kind, valid, idok, src, var]>> what the server sent   *)
 (*   res     "acc" | "rej" | "ok" | "err"                                     *)
+(* gated systems (cfg.gated; two call slots, every server keeps requests back  *)
+(* until the harness decides): op "cstart" (slot e.c starts Authenticate; the  *)
+(* step ends when its request is held at server e.hsrv), "cfail" (the held     *)
+(* request of slot e.c is answered with ten invalid replies: the attempt       *)
+(* fails; the step ends when the call's next request is held at e.hsrv or the  *)
+(* call returned: e.done, e.res), "cans" (authentic Accept/Reject e.m).  The    *)
+(* ghost keeps per slot fl[c] = [on, srv (where its request is), n (attempts)]. *)
 (***************************************************************************)
 EXTENDS Integers, FiniteSets, Sequences, TLC
 
@@ -155,7 +165,10 @@ Silent   == {"sil", "osrc"}                                                   \*
 SrvAt(cfg, cur, k) == ((cur - 1 + (k - 1)) % cfg.nsrv) + 1
 Cap(cfg) == cfg.burst * 1000
 
-G0(cfg) == [cur |-> 1, tok |-> [s \in 1..cfg.nsrv |-> Cap(cfg)]]
+NextSrv(cfg, s) == (s % cfg.nsrv) + 1
+Idle == [on |-> FALSE, srv |-> 0, n |-> 0]
+
+G0(cfg) == [cur |-> 1, tok |-> [s \in 1..cfg.nsrv |-> Cap(cfg)], fl |-> <<Idle, Idle>>]
 
 IsCall(e) == e.op \in {"auth", "acct"}
 
@@ -187,7 +200,7 @@ Visible(cfg, g, e, n) ==
   LET sq == [k \in 1..n |-> SrvAt(cfg, g.cur, k)]
   IN SelectSeq(sq, LAMBDA s : Modes(e)[s] # "ref")
 
-Replies(e) == {e.att[i].replies[j] : <<i, j>> \in {p \in (1..Len(e.att)) \X (1..10) : p[2] <= Len(e.att[p[1]].replies)}}
+Replies(e) == UNION {{e.att[i].replies[j] : j \in 1..Len(e.att[i].replies)} : i \in 1..Len(e.att)}
 GoodOf(r)  == r.valid /\ r.src
 Want(res)  == IF res = "acc" THEN "accept" ELSE IF res = "rej" THEN "reject" ELSE "acctresp"
 
@@ -212,7 +225,7 @@ AcctReqOK(cfg, e, a) ==
   /\ a.called = 0 /\ a.porttype = 0
 
 AuthProtOK(cfg, e, a) == a.ma = 1 /\ a.ra = 1 /\ a.pass = (IF cfg.atpl[e.t].pass THEN e.t ELSE 0)
-AcctProtOK(cfg, e, a) == a.ra = 1 /\ a.pass = 0 /\ a.ma # -1 /\ (cfg.acctma => a.maz = 1)
+AcctProtOK(cfg, e, a) == a.ra = 1 /\ a.pass = 0 /\ (cfg.acctma => a.maz = 1)
 
 CallClauses(cfg, g, e) ==
   LET adm   == Admitted(cfg, g, e)
@@ -273,9 +286,26 @@ ParClauses(cfg, g, e) ==
   \cup (IF \E a \in H, b \in H : a # b /\ e.held[a].srv = e.held[b].srv /\ e.held[a].cls = e.held[b].cls THEN {"IdUnique"} ELSE {})
   \cup (IF Len(e.held) # Len(e.calls) \/ {e.held[j].user : j \in H} # {e.calls[i].t : i \in C} THEN {"RequestFaithful"} ELSE {})
 
+(***************************************************************************)
+(* gated systems                                                            *)
+(***************************************************************************)
+IsGated(e) == e.op \in {"cstart", "cfail", "cans"}
+Applicable(g, e) == IF e.op = "cstart" THEN ~g.fl[e.c].on ELSE g.fl[e.c].on
+
+GatedClauses(cfg, g, e) ==
+  LET f == g.fl[e.c] IN
+  IF ~Applicable(g, e) THEN {}
+  ELSE IF e.op = "cstart" THEN (IF e.done \/ e.hsrv \notin 1..cfg.nsrv THEN {"ServerOrder"} ELSE {})
+  ELSE IF e.op = "cfail" THEN
+    (IF f.n < cfg.retries
+       THEN (IF e.done \/ e.hsrv # NextSrv(cfg, f.srv) THEN {"ServerOrder"} ELSE {})
+       ELSE (IF ~e.done THEN {"RetryBudget"} ELSE IF e.res # "err" THEN {"AcceptOnlyAuthentic"} ELSE {}))
+  ELSE (IF ~e.done \/ e.res # e.m THEN {"VerdictFollowsAnswer"} ELSE {})
+
 EdgeClauses(cfg, g, e) ==
   IF IsCall(e) THEN CallClauses(cfg, g, e)
   ELSE IF e.op = "par" THEN ParClauses(cfg, g, e)
+  ELSE IF IsGated(e) THEN GatedClauses(cfg, g, e)
   ELSE {}
 
 Refill(cfg, tok, dt) == [s \in 1..cfg.nsrv |-> Min2(Cap(cfg), tok[s] + cfg.rate * dt)]
@@ -288,9 +318,15 @@ Step(cfg, g, e, obs) ==
         t1   == Refill(cfg, g.tok, need)                                         \* up to the admission
         t2   == IF adm THEN [t1 EXCEPT ![g.cur] = Max2(0, @ - 1000)] ELSE t1
         t3   == Refill(cfg, t2, e.elapsed - need)                                \* rest of the call
-    IN [cur |-> IF adm /\ e.op = "auth" THEN LastSrv(cfg, g, e) ELSE g.cur,
-        tok |-> IF cfg.limited /\ ~cfg.rt THEN t3 ELSE g.tok]
+    IN [g EXCEPT !.cur = IF adm /\ e.op = "auth" THEN LastSrv(cfg, g, e) ELSE g.cur,
+                 !.tok = IF cfg.limited /\ ~cfg.rt THEN t3 ELSE g.tok]
+  ELSE IF IsGated(e) /\ Applicable(g, e) THEN
+    [g EXCEPT !.cur = obs.cur,       \* with calls in flight the current server is whatever the client says it is
+              !.fl[e.c] = IF e.done THEN Idle
+                          ELSE [on |-> TRUE, srv |-> e.hsrv, n |-> IF e.op = "cstart" THEN 1 ELSE g.fl[e.c].n + 1]]
   ELSE g
 
-NodeClauses(cfg, g, n, lastop) == {}
+\* "the server last tried stays the current one", "SendAccounting does not rotate": the client's current index
+\* (n.cur, read by reflection after the step) is where the next call will start
+NodeClauses(cfg, g, n, lastop) == IF ~cfg.gated /\ n.cur # g.cur THEN {"ServerOrder"} ELSE {}
 =============================================================================
